@@ -34,9 +34,9 @@ var c14Faults = []string{"wrap-before", "wrap-mid", "wrap-lost-ack", "srv-503-be
 
 func init() {
 	register(&core.Check{
-		ID:    "C14",
-		Level: "exploration",
-		Rule: "a primary with a backup service (the file-based client on a directory, or the LiteFS Cloud client against a harness-run LiteFS Cloud server that enforces contiguity itself) runs PRNG histories of commits, drops+recreates, retention sweeps, >256-file batches, service manipulations (a second store restores from the service and extends it => ahead / forked longer, equal, shorter; service emptied; service rolled back) and upload faults (failing before the body, mid-body, after the service stored the file but before the acknowledgement reached LiteFS; injected at the client boundary and, for the cloud protocol, in the server), each followed by Store.SyncBackup rounds (some cases use the background loop). A recording wrapper around the real BackupClient sees every PosMap/WriteTx/FetchSnapshot with the value returned to LiteFS; the service's own files are the ground truth. After every sync: the service's files must decode, verify and form a contiguous chain from a snapshot; the service position must be on the recorded history (ledger of every committed image by position) and the image restored from the service's files must equal the ledger image; DB.HWM() on the primary and on replicas (sampled continuously) must never exceed the largest value the service acknowledged; on an idle primary repeated syncs must reach service position == primary position with the restored image byte-identical to the primary's; when the service is ahead/forked the service's files must be unchanged by the sync and the primary must end at the service's position and image; with an on-chain service nothing may be restored and the primary's position may not move; a writer must still be able to commit after a failed upload; distinct = (client, mode, relation, fault, outcome)",
+		ID:          "C14",
+		Level:       "exploration",
+		Rule:        "a primary with a backup service (the file-based client on a directory, or the LiteFS Cloud client against a harness-run LiteFS Cloud server that enforces contiguity itself) runs PRNG histories of commits, drops+recreates, retention sweeps, >256-file batches, service manipulations (a second store restores from the service and extends it => ahead / forked longer, equal, shorter; service emptied; service rolled back) and upload faults (failing before the body, mid-body, after the service stored the file but before the acknowledgement reached LiteFS; injected at the client boundary and, for the cloud protocol, in the server), each followed by Store.SyncBackup rounds (some cases use the background loop). A recording wrapper around the real BackupClient sees every PosMap/WriteTx/FetchSnapshot with the value returned to LiteFS; the service's own files are the ground truth. After every sync: the service's files must decode, verify and form a contiguous chain from a snapshot; the service position must be on the recorded history (ledger of every committed image by position) and the image restored from the service's files must equal the ledger image; DB.HWM() on the primary and on replicas (sampled continuously) must never exceed the largest value the service acknowledged; on an idle primary repeated syncs must reach service position == primary position with the restored image byte-identical to the primary's; when the service is ahead/forked the service's files must be unchanged by the sync and the primary must end at the service's position and image; with an on-chain service nothing may be restored and the primary's position may not move; a writer must still be able to commit after a failed upload; distinct = (client, mode, relation, fault, outcome)",
 		Assumptions: []string{"the harness LiteFS Cloud server speaks the protocol as the client expects it (/pos, /db/tx, /db/snapshot, Litefs-Hwm, EPOSMISMATCH) and acknowledges a high-water mark that lags its position by 0..4 transactions", "a rolled-back service (lost its newest files) may legitimately cause either an extension or an adoption; only the end state is judged"},
 		NumCases: func(tier string) int {
 			if tier == "thorough" {
